@@ -96,29 +96,37 @@ def pred_1d(case):
     spl = Spline1D(basis)
     if spl.coeffs.shape != c.shape:
         raise Violation("C07:coeff-layout", "coefficient array has shape %s, expected %s" % (spl.coeffs.shape, c.shape))
-    spl.coeffs[:] = c
     path = "cu" if basis.cubic_uniform else "nu"
     onbreak = np.isin(pts, b)
-    for der in (0, 1):
-        want = ref.eval(c, pts, der)
-        tol = ref.tol(c, der)
-        with crash_is_violation("C07:eval1d", "Spline1D evaluation (%s path, der=%d)" % (path, der)):
-            got_arr = spl.eval(pts.copy(), der)
-            got_vec = np.full(len(pts), np.nan)
-            spl.eval_vector(pts.copy(), got_vec, der)
-            got_sc = np.array([spl.eval(float(x), der) for x in pts])
-        if p == 1 and der == 1:
-            left = ref.left_derivative(c, pts)
-            for name, got in (("eval(array)", got_arr), ("eval_vector", got_vec), ("eval(scalar)", got_sc)):
-                ok = (np.abs(got - want) <= tol) | (onbreak & (np.abs(got - left) <= tol))
-                if not ok.all():
-                    i = int(np.argmin(ok))
-                    raise Violation("C07:%s:der1-deg1" % path, "%s der=1 degree 1 at x=%r: got %r, one-sided values %r / %r"
-                                    % (name, pts[i], got[i], left[i], want[i]))
-        else:
-            _cmp("Spline1D.eval(array) der=%d" % der, got_arr, want, tol, pts, "C07:%s:eval-array:der%d" % (path, der))
-            _cmp("Spline1D.eval_vector der=%d" % der, got_vec, want, tol, pts, "C07:%s:eval-vector:der%d" % (path, der))
-            _cmp("Spline1D.eval(scalar) der=%d" % der, got_sc, want, tol, pts, "C07:%s:eval-scalar:der%d" % (path, der))
+    # the same Spline1D object is given new coefficients in place and evaluated again (what every interpolation in a
+    # time loop does): nothing remembered from the first evaluation may survive
+    nfree = ref.ncells if space["periodic"] else ref.ncoef
+    c_first = c
+    c_again = -0.75 * c[:nfree][::-1] + 0.3
+    if space["periodic"]:
+        c_again = np.concatenate([c_again, c_again[:p]])
+    for tag, c in (("", c_first), (":reused", c_again), (":reused", c_first)):
+        spl.coeffs[:] = c
+        for der in (0, 1):
+            want = ref.eval(c, pts, der)
+            tol = ref.tol(c, der)
+            with crash_is_violation("C07:eval1d", "Spline1D evaluation (%s path, der=%d)" % (path, der)):
+                got_arr = spl.eval(pts.copy(), der)
+                got_vec = np.full(len(pts), np.nan)
+                spl.eval_vector(pts.copy(), got_vec, der)
+                got_sc = np.array([spl.eval(float(x), der) for x in pts])
+            if p == 1 and der == 1:
+                left = ref.left_derivative(c, pts)
+                for name, got in (("eval(array)", got_arr), ("eval_vector", got_vec), ("eval(scalar)", got_sc)):
+                    ok = (np.abs(got - want) <= tol) | (onbreak & (np.abs(got - left) <= tol))
+                    if not ok.all():
+                        i = int(np.argmin(ok))
+                        raise Violation("C07:%s:der1-deg1%s" % (path, tag), "%s der=1 degree 1 at x=%r: got %r, one-sided values %r / %r"
+                                        % (name, pts[i], got[i], left[i], want[i]))
+            else:
+                _cmp("Spline1D.eval(array) der=%d" % der, got_arr, want, tol, pts, "C07:%s:eval-array:der%d%s" % (path, der, tag))
+                _cmp("Spline1D.eval_vector der=%d" % der, got_vec, want, tol, pts, "C07:%s:eval-vector:der%d%s" % (path, der, tag))
+                _cmp("Spline1D.eval(scalar) der=%d" % der, got_sc, want, tol, pts, "C07:%s:eval-scalar:der%d%s" % (path, der, tag))
     # ---- BSplines[i] is the i-th basis function ----------------------------------------------
     j = case["basis_index"]
     with crash_is_violation("C07:getitem", "BSplines[i]"):
@@ -171,7 +179,7 @@ def pred_1d(case):
     nonconst = float(np.ptp(c)) > 0
     return {"nontrivial": nonconst, "labels": [path, "periodic" if space["periodic"] else "clamped",
                                               "deg%d" % p, "uniform" if space["uniform_breaks"] else "nonuniform"],
-            "evals": 6 * len(pts)}
+            "evals": 18 * len(pts)}
 
 
 # ------------------------------------------------------------------------------------------------
@@ -200,14 +208,17 @@ def pred_2d(case):
     r1, r2 = bspl.Ref(s1, b1), bspl.Ref(s2, b2)
     f1 = r1.ncells if s1["periodic"] else r1.ncoef
     f2 = r2.ncells if s2["periodic"] else r2.ncoef
-    C = np.array(case["coeffs"], dtype=float).reshape(f1, f2)
-    if s2["periodic"]:
-        C = np.concatenate([C, C[:, :r2.p]], axis=1)
-    if s1["periodic"]:
-        C = np.concatenate([C, C[:r1.p, :]], axis=0)
-    if spl.coeffs.shape != C.shape:
-        raise Violation("C07:coeff-layout", "2-D coefficient array has shape %s, expected %s" % (spl.coeffs.shape, C.shape))
-    spl.coeffs[:] = C
+    def wrapped(A):
+        if s2["periodic"]:
+            A = np.concatenate([A, A[:, :r2.p]], axis=1)
+        if s1["periodic"]:
+            A = np.concatenate([A, A[:r1.p, :]], axis=0)
+        return A
+    base = np.array(case["coeffs"], dtype=float).reshape(f1, f2)
+    C_first = wrapped(base)
+    C_again = wrapped(-0.75 * base[::-1, ::-1] + 0.3)
+    if spl.coeffs.shape != C_first.shape:
+        raise Violation("C07:coeff-layout", "2-D coefficient array has shape %s, expected %s" % (spl.coeffs.shape, C_first.shape))
     fr1 = [f[0] for f in case["fracs"]]
     fr2 = [f[1] for f in case["fracs"]]
     x1 = points_for(s1, fr1)
@@ -216,41 +227,44 @@ def pred_2d(case):
     x1 = np.concatenate([x1[:3], x1[-(len(fr1) + 3):]])
     x2 = np.concatenate([x2[:3], x2[-(len(fr2) + 3):]])
     path = "cu" if b1.cubic_uniform else "nu"
-    s = float(np.abs(C).sum()) + 1e-300
-    for d1 in (0, 1):
-        for d2 in (0, 1):
-            if (s1["degree"] == 1 and d1) or (s2["degree"] == 1 and d2):
-                # one-sided ambiguity on breakpoints: use strictly interior evaluation points
-                y1 = x1[~np.isin(x1, s1["breaks"])] if d1 and s1["degree"] == 1 else x1
-                y2 = x2[~np.isin(x2, s2["breaks"])] if d2 and s2["degree"] == 1 else x2
-                if len(y1) == 0 or len(y2) == 0:
-                    continue
-            else:
-                y1, y2 = x1, x2
-            want = r1.basis_matrix(y1, d1) @ C @ r2.basis_matrix(y2, d2).T
-            tol = 64.0 * (r1.p + 1) * (r2.p + 1) * EPS * s
-            if d1:
-                tol *= (r1.p + 1) / r1.min_span
-            if d2:
-                tol *= (r2.p + 1) / r2.min_span
-            key = "C07:%s:2d:der%d%d" % (path, d1, d2)
-            with crash_is_violation("C07:eval2d", "Spline2D evaluation (%s, der %d,%d)" % (path, d1, d2)):
-                got_grid = spl.eval(y1.copy(), y2.copy(), d1, d2)
-                got_vec = np.full((len(y1), len(y2)), np.nan)
-                spl.eval_vector(y1.copy(), y2.copy(), got_vec, d1, d2)
-                got_sc = np.array([[spl.eval(float(a), float(b), d1, d2) for b in y2] for a in y1])
-                # pairwise kernels
-                m = min(len(y1), len(y2))
-                z = np.full(m, np.nan)
-                kern = CU.cu_eval_spline_2d_vector if b1.cubic_uniform else NU.nu_eval_spline_2d_vector
-                kern(y1[:m].copy(), y2[:m].copy(), b1.knots, b1.degree, b2.knots, b2.degree, spl.coeffs, z, d1, d2)
-            _cmp("Spline2D.eval(grid) der=(%d,%d)" % (d1, d2), got_grid, want, tol, None, key + ":grid")
-            _cmp("Spline2D.eval_vector der=(%d,%d)" % (d1, d2), got_vec, want, tol, None, key + ":vector")
-            _cmp("Spline2D.eval(scalar) der=(%d,%d)" % (d1, d2), got_sc, want, tol, None, key + ":scalar")
-            _cmp("eval_spline_2d_vector der=(%d,%d)" % (d1, d2), z, np.diag(want[:m, :m]), tol, None, key + ":pairwise")
+    # new coefficients are written in place into the same Spline2D object and it is evaluated again
+    for tag, C in (("", C_first), (":reused", C_again), (":reused", C_first)):
+        spl.coeffs[:] = C
+        s = float(np.abs(C).sum()) + 1e-300
+        for d1 in (0, 1):
+            for d2 in (0, 1):
+                if (s1["degree"] == 1 and d1) or (s2["degree"] == 1 and d2):
+                    # one-sided ambiguity on breakpoints: use strictly interior evaluation points
+                    y1 = x1[~np.isin(x1, s1["breaks"])] if d1 and s1["degree"] == 1 else x1
+                    y2 = x2[~np.isin(x2, s2["breaks"])] if d2 and s2["degree"] == 1 else x2
+                    if len(y1) == 0 or len(y2) == 0:
+                        continue
+                else:
+                    y1, y2 = x1, x2
+                want = r1.basis_matrix(y1, d1) @ C @ r2.basis_matrix(y2, d2).T
+                tol = 64.0 * (r1.p + 1) * (r2.p + 1) * EPS * s
+                if d1:
+                    tol *= (r1.p + 1) / r1.min_span
+                if d2:
+                    tol *= (r2.p + 1) / r2.min_span
+                key = "C07:%s:2d:der%d%d%s" % (path, d1, d2, tag)
+                with crash_is_violation("C07:eval2d", "Spline2D evaluation (%s, der %d,%d)" % (path, d1, d2)):
+                    got_grid = spl.eval(y1.copy(), y2.copy(), d1, d2)
+                    got_vec = np.full((len(y1), len(y2)), np.nan)
+                    spl.eval_vector(y1.copy(), y2.copy(), got_vec, d1, d2)
+                    got_sc = np.array([[spl.eval(float(a), float(b), d1, d2) for b in y2] for a in y1])
+                    # pairwise kernels
+                    m = min(len(y1), len(y2))
+                    z = np.full(m, np.nan)
+                    kern = CU.cu_eval_spline_2d_vector if b1.cubic_uniform else NU.nu_eval_spline_2d_vector
+                    kern(y1[:m].copy(), y2[:m].copy(), b1.knots, b1.degree, b2.knots, b2.degree, spl.coeffs, z, d1, d2)
+                _cmp("Spline2D.eval(grid) der=(%d,%d)" % (d1, d2), got_grid, want, tol, None, key + ":grid")
+                _cmp("Spline2D.eval_vector der=(%d,%d)" % (d1, d2), got_vec, want, tol, None, key + ":vector")
+                _cmp("Spline2D.eval(scalar) der=(%d,%d)" % (d1, d2), got_sc, want, tol, None, key + ":scalar")
+                _cmp("eval_spline_2d_vector der=(%d,%d)" % (d1, d2), z, np.diag(want[:m, :m]), tol, None, key + ":pairwise")
     return {"nontrivial": float(np.ptp(C)) > 0,
             "labels": [path, "%s-%s" % ("per" if s1["periodic"] else "cl", "per" if s2["periodic"] else "cl")],
-            "evals": 16 * len(x1) * len(x2)}
+            "evals": 48 * len(x1) * len(x2)}
 
 
 # ------------------------------------------------------------------------------------------------
